@@ -177,7 +177,7 @@ def parse_cbmc_json(out):
         if el.get('messageType') == 'ERROR':
             errors.append(el.get('messageText', ''))
         mt = el.get('messageText', '')
-        m = re.search(r'Runtime (?:Solver|decision procedure): ([0-9.]+)s', mt)
+        m = re.search(r'Runtime decision procedure: ([0-9.e+-]+)s', mt)
         if m:
             solver += float(m.group(1))
         if 'result' in el:
@@ -314,7 +314,7 @@ def solve(ctx: Ctx, ob: Ob) -> Result:
     base += list(ob.cbmc_flags)
     if ob.backend == 'cadical':
         base += ['--sat-solver', 'cadical']
-    main = base + ['--unwinding-assertions', '--json-ui']
+    main = base + ['--unwinding-assertions', '--json-ui', '--verbosity', '8']
     if '--no-unwinding-assertions' in ob.cbmc_flags:
         main = [x for x in main if x != '--unwinding-assertions']
     rc, out, wall = run(main, ob.timeout)
@@ -347,7 +347,7 @@ def solve(ctx: Ctx, ob: Ob) -> Result:
         if cur_c is None:
             res.wall_s = time.time() - t0
             return res
-        cv = [cur_c if x == cur else x for x in base] + ['--cover', 'cover', '--json-ui']
+        cv = [cur_c if x == cur else x for x in base] + ['--cover', 'cover', '--json-ui', '--verbosity', '8']
         cv = [x for x in cv if x not in ob.checks and x != '--no-unwinding-assertions']
         rc, out, _ = run(cv, ob.timeout)
         res.cmds.append(' '.join(cv))
